@@ -496,6 +496,7 @@ func TestC20(t *testing.T) {
 		groupFaults(t, rep, &evals, &nontrivial)
 	}
 	runRegistrySched(t, rep, env)
+	runVnetFaults(t, rep, env, &evals, &nontrivial)
 	rep.Add(evals, nontrivial, 0, 0)
 	if err := rep.Finish(env); err != nil {
 		t.Fatal(err)
